@@ -8,7 +8,7 @@
    d x x = 0, d x z <= d x y + d y z;  `qform n S w` = sum_j sum_i S_ij w_i w_j;  `psd n S` = qform >= 0. *)
 From Coq Require Import List Arith ZArith Bool Reals Lra Lia.
 From SC Require Import Base.Num C17.Model C17.Spec C17.ProofsSum C17.ProofsQuad C17.ProofsDist
-     C17.ProofsHamming C17.ProofsMinkowski C17.ProofsInverse C17.ProofsCov.
+     C17.ProofsHamming C17.ProofsMinkowski C17.ProofsInverse C17.ProofsCov C17.ProofsDefinite.
 Import ListNotations.
 Local Open Scope R_scope.
 
@@ -76,6 +76,17 @@ Theorem C17_hamming_definite : forall (A : Type) (neqb : A -> A -> bool),
   (forall a b, neqb a b = false <-> a = b) ->
   forall x y, (0 < length x)%nat -> hamming ROps neqb x y = Some 0 -> x = y.
 Proof. exact @hamming_zero_iff_equal. Qed.
+
+(* Minkowski of every order, Manhattan and Euclidian are definite as well *)
+Theorem C17_definite : forall x y,
+  (forall p, minkowski ROps p x y = Some 0 -> x = y) /\
+  (manhattan ROps x y = Some 0 -> x = y) /\ (euclidian ROps x y = Some 0 -> x = y).
+Proof.
+  intros x y. split; [|split].
+  - intros p. apply minkowski_zero_equal.
+  - apply manhattan_zero_equal.
+  - apply euclidian_zero_equal.
+Qed.
 
 (* ---------------- from the covariance to the metric (Mahalanobis::new / new_from_covariance) ------- *)
 (* the sigma stored by Mahalanobis::new (model of DenseMatrix::cov): column means, centred cross
